@@ -4,11 +4,17 @@ import ShootVerif.Proofs.CtorMain
 namespace ShootVerif.Drive
 open ShootVerif.Ctor ShootVerif.Opt
 
-/-- leaves with the information whether a pointer embed lies on their path -/
-def leavesPtr (path : List String) (under : Bool) (d : Nat) : Tree → List (List String × Nat × FInfo × Bool)
+/-- leaves with the pointer embeds on their path: (path, depth, info, under a pointer embed, the pointer-embed prefixes) -/
+def leavesPtrs (path : List String) (ptrs : List (List String)) (d : Nat) :
+    Tree → List (List String × Nat × FInfo × Bool × List (List String))
   | .nil => []
-  | .field f rest => (path, d, f, under) :: leavesPtr path under d rest
-  | .embed n _ p _ body rest => leavesPtr (path ++ [n]) (under || p) (d + 1) body ++ leavesPtr path under d rest
+  | .field f rest => (path, d, f, !ptrs.isEmpty, ptrs) :: leavesPtrs path ptrs d rest
+  | .embed n _ p _ body rest =>
+    leavesPtrs (path ++ [n]) (if p then ptrs ++ [path ++ [n]] else ptrs) (d + 1) body ++ leavesPtrs path ptrs d rest
+
+/-- (path, depth, info, under a pointer embed) -/
+def leavesPtr (path : List String) (under : Bool) (d : Nat) (t : Tree) : List (List String × Nat × FInfo × Bool) :=
+  (leavesPtrs path (if under then [[]] else []) d t).map (fun l => (l.1, l.2.1, l.2.2.1, l.2.2.2.1))
 
 def showVal (dirty : Bool) : Val → String
   | .init => if dirty then "dirty" else "zero"
@@ -18,19 +24,20 @@ def showVal (dirty : Bool) : Val → String
 /-- is this leaf the one the selector `t.name` writes (model: not shadowed in the generator's list, not skipped) -/
 def isTarget (t : Tree) (d : Nat) (f : FInfo) : Bool := !f.skip && !genShadow t d f.name
 
-def optRun (t : Tree) (names : List String) (dirty : Bool) (seq : List Nat) (mirrorPanic : Bool) : String :=
+def optRun (t : Tree) (names : List String) (dirty : Bool) (seq : List Nat) (_mirrorPanic : Bool) : String :=
   let fs := flatten t
   let defs := defaultList fs
   let optNames := seq.map (fun j => names.getD j "?")
   let st := withM defs (numbered optNames) (fun _ => .init)
-  let ls := leavesPtr [] false 0 t
-  -- the code: an option for a leaf that is promoted through a nil embedded pointer dereferences nil
-  let hitsNil := !dirty && mirrorPanic && optNames.any (fun n => ls.any (fun l => l.2.2.1.name = n && isTarget t l.2.1 l.2.2.1 && l.2.2.2))
-  if hitsNil then "panic"
-  else
-    let shown := if dirty then ls else ls.filter (fun l => !l.2.2.2)
-    ";".intercalate (shown.map (fun l =>
-      pathKey l.1 l.2.2.1.name ++ "=" ++ showVal dirty (if isTarget t l.2.1 l.2.2.1 then st l.2.2.1.name else .init)))
+  let ls := leavesPtrs [] [] 0 t
+  -- f531104: an option for a promoted field allocates the embedded pointer structs on its way
+  let allocated : List (List String) := (optNames.map (fun n =>
+    match ls.find? (fun l => l.2.2.1.name = n && isTarget t l.2.1 l.2.2.1) with
+    | some l => l.2.2.2.2
+    | none => [])).flatten
+  let shown := if dirty then ls else ls.filter (fun l => l.2.2.2.2.all (fun p => allocated.contains p))
+  ";".intercalate (shown.map (fun l =>
+    pathKey l.1 l.2.2.1.name ++ "=" ++ showVal dirty (if isTarget t l.2.1 l.2.2.1 then st l.2.2.1.name else .init)))
 
 /-- `(opt (mode nw|with) (short b) (tname T) (tree M…) (seqs (i j …) …))` -/
 def optCase (id : String) (payload : List Sexp) : List String :=
@@ -48,9 +55,8 @@ def optCase (id : String) (payload : List Sexp) : List String :=
         | some (.list (_ :: ss)) => ss.filterMap (fun s => s.asList?.bind (fun xs => xs.mapM Sexp.asNat?))
         | _ => []
       let key (s : List Nat) := "seq:" ++ "-".intercalate (s.map toString)
-      let nilEmbed := (leavesPtr [] false 0 t).any (fun l => isTarget t l.2.1 l.2.2.1 && l.2.2.2)
       let base := region t
-      let reg := if base != "WF" then "Out" else if !dirty && nilEmbed then "F_optNilEmbed" else "WF"
+      let reg := if base != "WF" then "Out" else "WF"
       let hdr (ns : List String) := [("optnames", " ".intercalate (ns.map (optName short tname))),
         ("hasdefault", toString (!(defaultList fs).isEmpty))]
       both id
